@@ -8,7 +8,6 @@ Source mutants are demonstrated with a scratch copy of the repository:
     PV_REPO=/tmp/x bin/verif check C20       (diffs in mutants/C20/)
 '''
 import copy
-import json
 import sys
 
 from pv import core
